@@ -23,7 +23,7 @@ LIB_SOURCES = ["interface.cxx", "impl.cxx", "io.cxx", "traversal.cxx", "utility.
 VARIANTS = {
     # name: (compiler, flags)
     "fast": ("g++", ["-O2"]),
-    "asan": ("g++", ["-O1", "-g", "-fsanitize=address,undefined", "-fno-sanitize-recover=all",
+    "asan": ("g++", ["-O1", "-fsanitize=address,undefined", "-fno-sanitize-recover=all",
                      "-fno-omit-frame-pointer"]),
     "tsan": ("clang++", ["-O1", "-g", "-fsanitize=thread", "-Wno-delete-non-abstract-non-virtual-dtor"]),
 }
@@ -153,6 +153,9 @@ def build_shared_object(src, variant, deps):
     """One translation unit shared by several harnesses (the zoo), cached per (variant, repo, sources)."""
     cxx, vflags = VARIANTS[variant]
     vflags = [f if f != "-O2" else "-O1" for f in vflags]
+    if variant in ("asan", "tsan"):
+        # the zoo is template-heavy: optimisation and debug info triple its compile time under the sanitizers
+        vflags = [f for f in vflags if f not in ("-O1", "-g")] + ["-O0"]
     flags = COMMON + vflags
     path = os.path.join(VERIF, src)
     allf = [path] + [os.path.join(VERIF, d) for d in deps] + engine_files() + repo_files()
@@ -192,7 +195,9 @@ def build_harness(name, spec):
     d = os.path.join(BUILD, "h-%s-%s-%s" % (name, variant, h))
     exe = os.path.join(d, name)
     lib = build_lib(variant) if spec.get("lib", True) else None
-    shared = [build_shared_object(x, variant, spec.get("deps", [])) for x in spec.get("shared", [])]
+    import concurrent.futures
+    with concurrent.futures.ThreadPoolExecutor(max_workers=8) as ex:
+        shared = list(ex.map(lambda x: build_shared_object(x, variant, spec.get("deps", [])), spec.get("shared", [])))
     with Lock("h-%s-%s" % (name, variant)):
         if os.path.exists(exe):
             os.utime(d, None)
